@@ -66,7 +66,31 @@ def step_entry_agreement(chk, drv, rid):
             elif idxvar and txt in (f"{idxvar} > 0", f"{idxvar} != 0", f"{idxvar} >= 1", f"0 < {idxvar}"):
                 conds["not_initial"] = True
             else:
-                conds["unknown"].append(txt)
+                # a comparison of the column index (or the row) with a constant is decided on values: it must mean exactly "not the initial column" (resp. "the first row")
+                from sa import minieval as _me
+                vec = None
+                var = next((v_ for v_ in (idxvar, clientvar) if v_ and isinstance(at, ast.Compare) and {x.id for x in ast.walk(at) if isinstance(x, ast.Name)} == {v_}), None)
+                if var:
+                    try:
+                        vec = [bool(_me.ev(at, {var: k})) for k in range(5)]
+                    except _me.CannotEval:
+                        vec = None
+                if vec is not None and var == idxvar:
+                    if vec == [False, True, True, True, True]:
+                        conds["not_initial"] = True
+                    else:
+                        conds["wrong_idx"] = txt
+                elif vec is not None and var == clientvar:
+                    if vec == [True, False, False, False, False]:
+                        conds["first_row"] = True
+                    else:
+                        conds["wrong_row"] = txt
+                else:
+                    conds["unknown"].append(txt)
+    for k_, what in (("wrong_idx", "every join-point column except the initial one (column 0)"), ("wrong_row", "exactly one row (the first)")):
+        if conds.get(k_):
+            chk.ob(rid, f"an entry is emitted for {what}", False, a, f"`{conds[k_]}` selects other columns / rows: an element left empty at the start of the schedule gets no entry, entries are shifted against the steps",
+                   key=f"esrally/driver/driver.py:Allocator.tasks_per_joinpoint:{k_}")
     if conds["unknown"]:
         chk.unknown(rid, f"entry emission in tasks_per_joinpoint is controlled by unrecognised condition(s) {conds['unknown']}", a)
         return
@@ -155,6 +179,18 @@ def allocation_totals(chk, rid, drv):
            key="esrally/driver/driver.py:Allocator.allocations:total-clients")
     chk.ob(rid, "allocation: global client index == the element-wide client index", i is not None and u(bd.get("global_client_index")) == i, tac[0], f"global_client_index={u(bd.get('global_client_index'))}",
            key="esrally/driver/driver.py:Allocator.allocations:global-index")
+    # task-local index == i - s where s is the element-wide index of the sub-task's first client (advanced by the sub-task's client count): contiguous 0..k-1 per sub-task,
+    # which is what the partitioning of co-located clients relies on (a modulo hands out a rotated range)
+    cit = bd.get("client_index_in_task")
+    ok = False
+    if isinstance(cit, ast.BinOp) and isinstance(cit.op, ast.Sub) and i is not None and u(cit.left) == i and isinstance(cit.right, ast.Name):
+        sv = cit.right.id
+        sub_loop = source.enclosing(cl, ast.For)
+        adv = [n for n in ast.walk(L) if isinstance(n, ast.AugAssign) and isinstance(n.op, ast.Add) and u(n.target) == sv]
+        ok = len(adv) == 1 and sub_loop is not None and isinstance(sub_loop.target, ast.Name) and u(adv[0].value) == f"{sub_loop.target.id}.clients" \
+            and any(isinstance(n, ast.Assign) and u(n.targets[0]) == sv and source.is_const(n.value, 0) for n in L.body)
+    chk.ob(rid, "allocation: task-local client index == element-wide index minus the index of the sub-task's first client", ok, tac[0], f"client_index_in_task={u(cit) if cit is not None else None}",
+           key="esrally/driver/driver.py:Allocator.allocations:task-local-index")
 
 
 def joinpoint_lists_reset(chk, rid, drv):
